@@ -18,6 +18,7 @@ Binding B (code -> spec): hypothesis-generated arbitrary Unicode texts are run t
 import json
 import multiprocessing as mp
 import os
+import random
 import re
 import shutil
 import subprocess
@@ -690,6 +691,11 @@ def _run_bindings(ctx, pool, n, plen, hyp):
 
     # ---- B: hypothesis texts + sample of A2 texts, judged by TLC
     texts = _collect_hypothesis(*hyp)
+    harvested = _harvest_suite_texts(ctx, quick)
+    seen_t = set(texts)
+    harvested = [t for t in harvested if t not in seen_t]
+    texts = texts + harvested
+    ctx.note("B_texts_harvested_from_the_repository_test_suite", len(harvested))
     chunks = [texts[i:i + 500] for i in range(0, len(texts), 500)]
     obs = [x for part in pool.map(observe_texts, chunks) for x in part]
     trace_sample.sort(key=lambda x: x[0])
@@ -771,6 +777,31 @@ def _run_bindings(ctx, pool, n, plen, hyp):
     if drift:
         ctx.note("spec_drift_examples", drift)
         print("SPEC-DRIFT C02: %s" % {k: v["count"] for k, v in drift.items()})
+
+
+def _harvest_suite_texts(ctx, quick):
+    """Every text the repository's own tests hand to HedString(...): the executions the suite already produces are
+    validated against the specification like any other recorded run (binding B)."""
+    import subprocess
+    import hed
+    root = os.path.dirname(os.path.dirname(os.path.abspath(hed.__file__)))
+    if not os.path.isdir(os.path.join(root, "tests")):
+        return []
+    out = os.path.join(ctx.work, "harvest.json")
+    paths = ["tests/models/test_hed_string.py", "tests/models/test_hed_group.py", "tests/models/test_hed_tag.py",
+             "tests/validator/test_tag_validator.py"] if quick else ["tests/models", "tests/validator", "tests/tools/analysis", "tests/schema/test_convert_tags.py"]
+    env = dict(os.environ, VERIF_HARVEST_OUT=out, PYTHONPATH=os.pathsep.join([root, tlc.VERIF] + [os.environ.get("PYTHONPATH", "")]))
+    try:
+        subprocess.run([sys.executable, "-m", "pytest", "-q", "-p", "no:cacheprovider", "-p", "vf.pytest_harvest"] + paths,
+                       cwd=root, env=env, stdout=subprocess.DEVNULL, stderr=subprocess.DEVNULL, timeout=240 if quick else 900)
+        with open(out) as f:
+            texts = json.load(f)
+    except Exception:
+        return []        # the suite is an extra source of inputs; without it the run is unchanged
+    rng = random.Random(ctx.seed)
+    if len(texts) > (1500 if quick else 20000):
+        texts = rng.sample(texts, 1500 if quick else 20000)
+    return texts
 
 
 def _long_texts():
